@@ -11,7 +11,7 @@ pub fn meta() -> PropertyMeta {
     PropertyMeta {
         id: "C12",
         level: "exploration",
-        rule: "operation sequences (0..60 steps of push(arbitrary standard/custom/extended error), pop, clear, length, is_empty) run in lock-step against a VecDeque model, on Vec<Error> (unbounded) and on ArrayVec<Error, N> for every N in 1..=8; return values and length compared after every step, full drain compared at the end. Non-trivial: the sequence overflows, pops and overflows again, or interleaves at least three push/pop alternations.",
+        rule: "operation sequences (0..60 steps of push(arbitrary standard/custom/extended error), pop, clear, length, is_empty) run in lock-step against a VecDeque model, on Vec<Error> (unbounded) and on ArrayVec<Error, N> for every N in 1..=8 and for 16, 17, 32 (with push-heavy sequences of up to 200 steps); return values and length compared after every step, full drain compared at the end. Non-trivial: the sequence overflows, pops and overflows again, or interleaves at least three push/pop alternations.",
         assumptions: &["capacities 1..=8 stand for 'all capacities >= 1' (const-generic dispatch)"],
         run,
     }
@@ -161,7 +161,7 @@ pub fn check(case: &Case, obs: &Obs) -> CheckResult {
             }
         };
     }
-    arr!(1, 2, 3, 4, 5, 6, 7, 8)
+    arr!(1, 2, 3, 4, 5, 6, 7, 8, 16, 17, 32)
 }
 
 fn op_strategy() -> impl Strategy<Value = Op> {
@@ -175,7 +175,11 @@ fn op_strategy() -> impl Strategy<Value = Op> {
 }
 
 fn case_strategy() -> impl Strategy<Value = Case> {
-    (0u8..=8, proptest::collection::vec(op_strategy(), 0..60)).prop_map(|(cap, ops)| Case { cap, ops })
+    (
+        prop_oneof![9 => (0u8..=8).boxed(), 1 => prop_oneof![Just(16u8), Just(17u8), Just(32u8), Just(0u8)].boxed()],
+        prop_oneof![9 => proptest::collection::vec(op_strategy(), 0..60), 1 => proptest::collection::vec(prop_oneof![8 => any::<u8>().prop_map(Op::Push), 2 => Just(Op::Pop), 1 => Just(Op::Len)], 60..200), 1 => proptest::collection::vec(prop_oneof![12 => any::<u8>().prop_map(Op::Push), 1 => Just(Op::Pop)], 250..700)],
+    )
+        .prop_map(|(cap, ops)| Case { cap, ops })
 }
 
 fn run(e: &Engine) {
